@@ -961,7 +961,7 @@ def c06(ck):
             if r["id"] != c["id"]:
                 for w in (r["why"] if isinstance(r["why"], list) else [r["why"]]):
                     notes[w] = notes.get(w, 0) + 1
-        ck.extra["derived_metadata_model"] = {"builds_checked": len(real), "clauses": 11, "disagreements (notes, not violations)": notes}
+        ck.extra["derived_metadata_model"] = {"builds_checked": len(real), "clauses": 12, "disagreements (notes, not violations)": notes}
         if notes:
             log(f"  derived-metadata notes (not violations): {notes}")
     # a canary on file entries needs an event with files
